@@ -147,7 +147,7 @@ def run(facts, chk, tier, only=None):
                 envv = RefV(Cell(env, 'env')) if c.local_ty(1).startswith('&') else env
                 arg = Agg('tuple', 0, [BV(64, 0), RefV(Cell(Opaque('sample'), 's'))])
                 r = I.exec_body(c, [envv, arg])
-                table[(in_ref, in_alt)] = r.tag[1] if isinstance(r, Opaque) and r.tag[0] == 'str' else repr(r)
+                table[(in_ref, in_alt)] = (r.tag[1] if isinstance(r, Opaque) and r.tag[0] == 'str' else (''.join(r.chars) if type(r).__name__ == 'StrV' else repr(r)))
         want = {(1, 1): '0/1', (1, 0): '0', (0, 1): '1', (0, 0): '.'}
         return table, want, caps
     r = chk.guard('C18.gt', 'C18.gt:closure', gt)
